@@ -89,6 +89,13 @@ func drawUpstreamErrors(rt *rapid.T, w *WorldDesc) *Plan {
 		p.Ops = append(p.Ops, op)
 	}
 	p.Schedule = drawSchedule(rt, 32)
+	// the JSON media type as gateways, frameworks and header-setting hooks spell it (parameters,
+	// letter case); drawn last so that the rest of a plan is what it was before
+	for i, op := range p.Ops {
+		if op.Rogue != nil && len(op.Rogue.Headers) > 0 && op.Rogue.Headers[0][1] == "application/json" {
+			op.Rogue.Headers[0][1] = rapid.SampledFrom([]string{"application/json", "application/json", "application/json; charset=utf-8", "application/json;charset=UTF-8", "Application/JSON"}).Draw(rt, fmt.Sprintf("op%d.jsonct", i))
+		}
+	}
 	return p
 }
 
